@@ -72,6 +72,13 @@ def isReflSpectrum (ε : K) (evals : List K) : Bool :=
   ((evals.mergeSort (fun a b => decide (a ≤ b))).zip (expectedEvals evals.length)).all
     fun p => decide (|p.1 - p.2| ≤ ε)
 
+/-- the whole acceptance decision of `from_reflection`: the spectrum test, then the spacelike test
+that `spacelike_to` applies to the chosen `(-1)`-eigenvector (after `normalize`, so its Minkowski
+norm is `±1` or `0`): `normsq > ERROR_THRESHOLD`.  `vnorm` is the Minkowski norm of that
+normalised eigenvector. -/
+def fromReflectionAccepts (ε : K) (evals : List K) (vnorm : K) : Bool :=
+  isReflSpectrum ε evals && decide (ε < vnorm)
+
 /-- scan for `np.argmin` (first minimum): position `i` in the scan, best value and index so far -/
 def argminGo : List K → ℕ → K → ℕ → ℕ
   | [], _, _, bi => bi
